@@ -63,10 +63,15 @@ def stub_sources():
     return [os.path.join(STUBS, "tinyxml2.cpp"), os.path.join(STUBS, "ccd_stub.c")]
 
 
+def _norm(s):
+    """cache keys do not depend on where the repo / verif trees live"""
+    return s.replace(REPO, "$REPO").replace(BUILD, "$BUILD").replace(VERIF, "$VERIF")
+
+
 def _hash_files(paths):
     h = hashlib.sha256()
     for p in sorted(paths):
-        h.update(p.encode())
+        h.update(_norm(p).encode())
         try:
             with open(p, "rb") as f:
                 h.update(f.read())
@@ -104,7 +109,7 @@ def _compile_one(variant, src, objdir, hh, extra=()):
     cmd = _flags(variant, src) + list(extra)
     with open(src, "rb") as f:
         sb = f.read()
-    key = hashlib.sha256((" ".join(cmd) + "\0" + hh + "\0").encode() + sb).hexdigest()
+    key = hashlib.sha256((_norm(" ".join(cmd)) + "\0" + hh + "\0").encode() + sb).hexdigest()
     obj = os.path.join(objdir, _objname(src))
     keyf = obj + ".key"
     try:
